@@ -33,6 +33,12 @@ impl Ipv4Addr {
 }
 impl Ipv6Addr {
     pub fn octets(&self) -> (r: [u8; 16]) ensures r@ == self.octs@ { self.octs }
+    /// std `to_ipv4` / `to_ipv4_mapped`: an IPv4 address for SOME IPv6 addresses (which ones is not modelled: the
+    /// covered code must not depend on it to stay faithful to the destination)
+    #[verifier::external_body]
+    pub fn to_ipv4(&self) -> (r: Option<Ipv4Addr>) { unimplemented!() }
+    #[verifier::external_body]
+    pub fn to_ipv4_mapped(&self) -> (r: Option<Ipv4Addr>) { unimplemented!() }
 }
 impl SocketAddrV4 {
     pub fn new(ip: Ipv4Addr, port: u16) -> (r: SocketAddrV4) ensures r == (SocketAddrV4 { ip, port }) { SocketAddrV4 { ip, port } }
